@@ -20,6 +20,10 @@ package mvp5
 //@ func (*executeUnit).cycle
 //@   havoc
 //@   preserves CPU
+//@   -- (C05; F14/F16, fixed) a line is fetched from, and cached under, an address aligned on the line size
+//@   -- (the only clauses checked on this body)
+//@   assert-before (*memoryManagementUnit).pushLineToL1D: int32(arg0) % 64 == 0
+//@   assert-before (*memoryManagementUnit).fetchCacheLine: arg0 % 64 == 0
 //@ func (*writeUnit).cycle
 //@   havoc
 //@   preserves CPU
@@ -63,7 +67,7 @@ package mvp5
 // Run (C09): every exit of the main loop happens with all older write-backs
 // done. (C12) the cycle counter is positive when the loop is left.
 //@ func (*CPU).Run
-//@   assume-before (*memoryManagementUnit).flush: wfMMU(m.memoryManagementUnit) && m.memoryManagementUnit.l1d.lineLength == 64 && allocated(m.memoryManagementUnit.ctx.Memory) && (forall j :: 0 <= j && j < len(m.memoryManagementUnit.l1d.lines) ==> !sameArray(m.memoryManagementUnit.l1d.lines[j].Data, m.memoryManagementUnit.ctx.Memory) && int32(m.memoryManagementUnit.l1d.lines[j].Boundary[0]) <= 1073741824)
+//@   assume-before (*memoryManagementUnit).flush: wfMMU(m.memoryManagementUnit) && m.memoryManagementUnit.l1d.lineLength == 64 && allocated(m.memoryManagementUnit.ctx.Memory) && (forall j :: 0 <= j && j < len(m.memoryManagementUnit.l1d.lines) ==> !sameArray(m.memoryManagementUnit.l1d.lines[j].Data, m.memoryManagementUnit.ctx.Memory) && int32(m.memoryManagementUnit.l1d.lines[j].Boundary[0]) <= 1073741824) && comp.disjointLines(m.memoryManagementUnit.l1d)
 //@   requires m.fetchUnit != nil && m.decodeUnit != nil && m.executeUnit != nil && m.writeUnit != nil && m.decodeBus != nil && m.executeBus != nil && m.writeBus != nil && m.ctx != nil && m.memoryManagementUnit != nil
 //@   -- (C12) a run that returns without error reports a positive cycle count
 //@   ensures result1 == nil ==> result >= 1
@@ -108,15 +112,13 @@ package mvp5
 
 // eviction write-back: when the push displaces the least-recently-used line,
 // that line's bytes must be in memory afterwards (nothing dirty is dropped).
-// The real code writes the NEW line back instead of the victim: known finding
-// F13, region "the cache is full".
+// (The code used to write the NEW line back instead of the victim: F13, fixed.)
 //@ func (*memoryManagementUnit).pushLineToL1D
-//@   requires wfMMU(u) && len(u.l1d.lines) <= u.l1d.numberOfLines && 0 <= int32(addr) && int32(addr) <= 1073741824 && len(line) <= 1048576 && !sameArray(line, u.ctx.Memory) && allocated(u.ctx.Memory)
+//@   requires wfMMU(u) && len(u.l1d.lines) <= u.l1d.numberOfLines && 0 <= int32(addr) && int32(addr) <= 1073741824 && len(line) <= 1048576 && !sameArray(line, u.ctx.Memory) && allocated(u.ctx.Memory) && (forall j :: 0 <= j && j < len(u.l1d.lines) ==> !sameArray(u.l1d.lines[j].Data, u.ctx.Memory) && int32(u.l1d.lines[j].Boundary[0]) <= 1073741824)
 //@   ensures u.l1d.numberOfLines > 0 ==> u.l1d.lines[0].Boundary[0] == addr && u.l1d.lines[0].Data == line
 //@   ensures len(u.l1d.lines) == min(len(old(u.l1d.lines)) + 1, u.l1d.numberOfLines)
 //@   ensures forall j :: 0 < j && j < len(u.l1d.lines) ==> u.l1d.lines[j] == old(u.l1d.lines[j-1])
 //@   ensures forall k :: old(len(u.l1d.lines)) == u.l1d.numberOfLines && u.l1d.numberOfLines > 0 && 0 <= k && k < u.l1d.lineLength && int(old(u.l1d.lines[len(u.l1d.lines)-1].Boundary[0])) + k < len(u.ctx.Memory) ==> u.ctx.Memory[int(old(u.l1d.lines[len(u.l1d.lines)-1].Boundary[0])) + k] == old(u.l1d.lines[len(u.l1d.lines)-1].Data[k])
-//@   finding F13-evicted-line-not-written-back: len(u.l1d.lines) == u.l1d.numberOfLines && u.l1d.numberOfLines > 0
 //@   assigns u.l1d.lines, u.ctx.Memory[*]
 
 //@ func (*memoryManagementUnit).pushLineToL1I
@@ -151,15 +153,15 @@ package mvp5
 
 // final flush: every byte of every resident line is in memory afterwards and
 // bytes not covered by a resident line are untouched. With overlapping lines
-// the last line written wins (known findings F14/F16: region "lines overlap").
+// the last line written wins: the lines must not overlap (precondition; they
+// are aligned on their size since the fill path aligns its fetches: F14/F16, fixed).
 //@ spec func memAt(u *memoryManagementUnit, x int) int8 = at(u.ctx.Memory, lo(u.ctx.Memory) + x)
 //@ func (*memoryManagementUnit).flush
-//@   requires wfMMU(u) && u.l1d.lineLength == 64 && allocated(u.ctx.Memory) && (forall j :: 0 <= j && j < len(u.l1d.lines) ==> !sameArray(u.l1d.lines[j].Data, u.ctx.Memory) && int32(u.l1d.lines[j].Boundary[0]) <= 1073741824)
+//@   requires wfMMU(u) && u.l1d.lineLength == 64 && allocated(u.ctx.Memory) && (forall j :: 0 <= j && j < len(u.l1d.lines) ==> !sameArray(u.l1d.lines[j].Data, u.ctx.Memory) && int32(u.l1d.lines[j].Boundary[0]) <= 1073741824) && comp.disjointLines(u.l1d)
 //@   nooverflow additionalCycles
 //@   ensures result == latency.MemoryAccess * len(u.l1d.lines)
 //@   ensures forall j, k :: 0 <= j && j < len(u.l1d.lines) && 0 <= k && k < 64 && int(u.l1d.lines[j].Boundary[0]) + k < len(u.ctx.Memory) ==> memAt(u, int(u.l1d.lines[j].Boundary[0]) + k) == u.l1d.lines[j].Data[k]
 //@   ensures forall x :: 0 <= x && x < len(u.ctx.Memory) && x <= 2147483647 && (forall j :: 0 <= j && j < len(u.l1d.lines) ==> !comp.covers(u.l1d.lines[j], int32(x))) ==> memAt(u, x) == old(memAt(u, x))
-//@   finding F14-F16-overlapping-lines: !comp.disjointLines(u.l1d)
 //@   assigns u.ctx.Memory[*]
 //@   loop 0: invariant u.ctx == old(u.ctx) && u.l1d == old(u.l1d) && u.ctx.Memory == old(u.ctx.Memory) && additionalCycles == latency.MemoryAccess * _idx0 && _range0 == u.l1d.lines
 //@   loop 0: invariant forall j, a :: 0 <= j && j < len(u.l1d.lines) && lo(u.l1d.lines[j].Data) <= a && a < hi(u.l1d.lines[j].Data) ==> at(u.l1d.lines[j].Data, a) == old(at(u.l1d.lines[j].Data, a))
